@@ -230,7 +230,8 @@ class UnionFind:
 class C01(SpecProp):
     pid = "C01"
     ops = CORE_OPS | {"SLICE", "MERGE", "SAVE", "LOAD"}
-    rule = ("same history mix as C02 plus clone/slice/merge/save+load calls interleaved; after every call the oracle (written "
+    rule = ("same history mix as C02 plus clone/slice/merge/save+load calls interleaved (the loaded graph is read on, also data "
+            "read before the save, and is judged by the history of the graph that was saved); after every call the oracle (written "
             "from the property text, independent of the reference model) checks: the alive set shrinks only at a data() "
             "call that reads a datum for the first time since its put; every removed vertex is connected to the vertex read "
             "through the bind calls of the history, holds no unread datum, and was an endpoint of a bind; non-trivial = the "
@@ -248,7 +249,7 @@ class C01(SpecProp):
         return self.core_mix(rng, "quick", 12000, 12000, "c01s-")
 
     def safety_oracle(self, h, il):
-        uf, unread, endpoint, keys = {}, {}, {}, {}
+        uf, unread, endpoint, keys, images = {}, {}, {}, {}, {}
         for i, t, res, before, after in Walk(h, il):
             k = t[0]
             hd = t[1] if len(t) > 1 else None
@@ -263,6 +264,25 @@ class C01(SpecProp):
                 else:
                     uf.pop(dst, None)
                 continue       # the destination handle now names another graph: nothing was removed from anything
+            if k == "SAVE" and len(t) > 2:
+                if hd in uf:
+                    u = UnionFind()
+                    u.p = dict(uf[hd].p)
+                    images[t[2]] = (u, set(unread[hd]), set(endpoint[hd]))
+                else:
+                    images.pop(t[2], None)
+                continue
+            if k == "LOAD" and len(t) > 2:
+                # the loaded graph carries the history of the graph that was saved (its binds, its unread data):
+                # the calls that follow on it are judged like calls on a clone
+                if res == "ok" and t[1] in images:
+                    u0, un0, ep0 = images[t[1]]
+                    u = UnionFind()
+                    u.p = dict(u0.p)
+                    uf[t[2]], unread[t[2]], endpoint[t[2]] = u, set(un0), set(ep0)
+                else:
+                    uf.pop(t[2], None)
+                continue
             if hd not in uf:
                 continue
             s0, s1 = before.get(hd), after.get(hd)
@@ -344,6 +364,18 @@ def multi_history(rng, hid):
         extra = ["SLICE g %d s" % rng.pick(pres), "SNAP g", "KEYS g"]
     elif k == 2:
         extra = ["SAVE g img", "LOAD img l", "SNAP g", "KEYS g", "KEYS l"]
+        if not os.environ.get("VERIF_NO_W12"):
+            # the loaded graph is read on: data read before the save are read again, the rest for the first time
+            tl = t.clone()
+            for _ in range(rng.pick([3, 6, 10])):
+                cur = sorted(tl.present)
+                if not cur:
+                    break
+                reread = sorted((tl.hasdata - tl.unread) & tl.present)
+                v = rng.pick(reread) if reread and rng.chance(1, 2) else rng.pick(cur)
+                extra.append("DATA l %d" % v)
+                tl.data(v)
+            extra.append("KEYS l")
     elif pres:
         extra = ["NEW r %d" % h0.meta["cap"], "ADD r 0", "ADD r 1", "BIND r 0 1 %s" % gen.lab_alpha(3),
                  "PUT r 1 V0102", "MERGE g r %d 0" % rng.pick(pres), "KEYS g"]
@@ -355,11 +387,14 @@ def multi_history(rng, hid):
 
 class C03(SpecProp):
     pid = "C03"
+    ops = CORE_OPS | {"MERGE"}
     rule = ("C02's history mix with more kid/kids/data observers, all three label variants (ASCII, 2-byte Greek, 4-byte, "
             "alpha indices up to 2^64-1, 8-character names) and data of 0..12 bytes in the heap and the inline representation "
             "(zero and non-zero padding); the oracle keeps last-write maps written from the property text (edges per vertex "
             "in first-bind order, last datum per vertex, reset when an absent id is added) and compares every kid/kids/data "
-            "answer of the implementation with them; non-trivial = a history in which an edge is re-bound or a datum "
+            "answer of the implementation with them; a stream of tree merges enters the right tree's edges and data into the "
+            "left graph's maps (a vertex merge() creates must read back blank plus exactly what the right tree demands); "
+            "non-trivial = a history in which an edge is re-bound or a datum "
             "overwritten or a collection happens before a read; distinct = distinct final state")
 
     def generate(self, rng, tier):
@@ -388,6 +423,13 @@ class C03(SpecProp):
                 ops += ["PUT g 1 %s" % big(l), "DATA g 1", "DATA g 1", "KIDS g 1"]
             ops += ["CLONE g h", "DATA h 1", "DATA g 2", "KEYS g", "DATA h 1"]
             hs.append(History("c03-huge%d" % j, 4, ops, {"cap": 8, "n": 4}))
+        # vertices created by merge() of trees read back what the right tree demands and nothing else (Y2-3)
+        if not os.environ.get("VERIF_NO_W12"):
+            import props_ext
+            for j in range(200 if tier == "quick" else 6000):
+                hm = props_ext.merge_history(rng.fork(), "c03-merge%d" % j, extras=False)
+                hm.meta["c03merge"] = True
+                hs.append(hm)
         return hs
 
     def search(self, rng, tier, diverging):
@@ -447,18 +489,41 @@ class C03(SpecProp):
                 if res != want:
                     return {"reason": "data(%d) = %s, last put says %s" % (v, res, want), "index": i,
                             "expected": want, "observed": res}
+            elif k == "MERGE" and len(t) >= 5 and res == "ok" and t[2] in edges and after.get(hd) is not None \
+                    and h.meta.get("c03merge"):
+                # merge() of trees "as if the additions had been made by add/bind/put": the right tree's edges and data,
+                # as the calls on the right graph wrote them, are entered into the left graph's maps; the id of a vertex
+                # merge() creates is read off the state (any absent id will do here), its content must be blank + demanded
+                sm, rh = after.get(hd), t[2]
+                todo = [(int(t[4]), int(t[3]))]
+                while todo:
+                    rv, gv = todo.pop()
+                    if data[rh].get(rv) is not None:
+                        data[hd][gv] = data[rh][rv]
+                    for a, w in edges[rh].get(rv, []):
+                        e = edges[hd].setdefault(gv, [])
+                        tg = next((x for l, x in e if l == a), None)
+                        if tg is None:
+                            tg = next((x for l, x in slot(sm, gv)["edges"] if l == a), None) if gv < sm["cap"] else None
+                            if tg is None:
+                                return {"reason": "after merge() vertex %d has no edge %s although the right tree demands it" % (gv, a),
+                                        "index": i, "expected": "an edge %s" % a, "observed": str(slot(sm, gv)["edges"])[:300]}
+                            e.append((a, tg))
+                            edges[hd][tg], data[hd][tg] = [], None
+                        todo.append((w, tg))
             elif k not in ("KEYS", "NEXT", "SNAP", "LEN"):
                 edges.pop(hd, None)       # a call this oracle does not follow (merge, script, load ...): no claim afterwards
                 continue
             # what kid()/kids()/data() WOULD answer for every present vertex, read off the state after the call: a write
             # that is lost silently (e.g. during a call on another vertex) is seen when it happens, not when somebody asks
             s1 = after.get(hd)
-            if s1 is not None and k in ("ADD", "BIND", "PUT", "DATA", "NEXT"):
+            if s1 is not None and k in ("ADD", "BIND", "PUT", "DATA", "NEXT", "MERGE"):
                 for v in present(s1):
                     if v not in edges[hd]:
                         continue
                     x = slot(s1, v)
-                    if x["edges"] != edges[hd][v]:
+                    # (the order in which merge() makes its binds is not fixed by any text: compared as sets there)
+                    if (sorted(x["edges"]) != sorted(edges[hd][v])) if h.meta.get("c03merge") else (x["edges"] != edges[hd][v]):
                         return {"reason": "after %s vertex %d has edges %s, the binds made since it was created say %s"
                                           % (h.ops[i], v, x["edges"], edges[hd][v]), "index": i,
                                 "expected": str(edges[hd][v])[:400], "observed": str(x["edges"])[:400]}
